@@ -68,6 +68,22 @@ func (w *World) irMutations(pkgPrefixes []string) []irMutation {
 		}
 		for _, b := range fn.Blocks {
 			for _, ins := range b.Instrs {
+				// in-place filter idiom: s := irSlice[:0]; s = append(s, ...) overwrites the shared backing array
+				if sl, isSlice := ins.(*ssa.Slice); isSlice {
+					if k, isConst := sl.High.(*ssa.Const); isConst && k.Value != nil && k.Int64() == 0 {
+						if st, isSl := sl.X.Type().Underlying().(*types.Slice); isSl {
+							if _, isIR := isDefinitionsStruct(st.Elem()); isIR {
+								root, _ := addrRoot(sl.X)
+								if _, fresh := root.(*ssa.Alloc); !fresh {
+									if _, mk := root.(*ssa.MakeSlice); !mk {
+										out = append(out, irMutation{Fn: fnShort(fn), Field: "<in-place filter [:0]>", Pos: w.pos(sl.Pos()), Root: "existing slice"})
+									}
+								}
+							}
+						}
+					}
+					continue
+				}
 				st, ok := ins.(*ssa.Store)
 				if !ok {
 					continue
